@@ -80,7 +80,7 @@ def check_bpseq_matching(chk) -> None:
         chk.note_function(fi)
         can = astq.first_assign(fi.node, "canonical")
         ok = can is not None and flat(can) == flat("[base_pair for base_pair in self.base_pairs if base_pair.is_canonical and base_pair.nt1 < base_pair.nt2]")
-        chk.expect(ok, "canonical-candidates", fi.where, "candidates = canonical pairs with nt1 < nt2 (each pair once)", "the candidate list is not [bp for bp in self.base_pairs if bp.is_canonical and bp.nt1 < bp.nt2]", K(fi, "candidates"), found=norm(can) if can is not None else None)
+        chk.expect(ok, "canonical-candidates-form", fi.where, "candidates = canonical pairs with nt1 < nt2 (each pair once)", "the candidate list is not [bp for bp in self.base_pairs if bp.is_canonical and bp.nt1 < bp.nt2]", K(fi, "candidates"), found=norm(can) if can is not None else None)
         m, why = conflict_loop_is_matching(fi, "canonical")
         chk.expect(m, "matching-typestate", fi.where, f"`canonical` is a matching when the loop is left ({why})", f"`canonical` is not shown to be a matching after conflict resolution: {why}", K(fi, "resolution"))
         # the only removal is inside the conflict guard
@@ -108,7 +108,22 @@ def check_bpseq_matching(chk) -> None:
         chk.expect(ok, "conflict-score", fi.where, "score = (0 for Watson-Crick G-C/A-U(T), 1 otherwise, nt1, nt2): the worst-scored pair of a conflict is removed", "the conflict score is not (rank, nt1, nt2) with rank 0 for XIX/XX resp. AU/AT/CG and 1 otherwise", K(fi, "score"))
 
 
-def check_lifting(chk) -> None:
+def check_lifting(chk, decided: bool = False) -> None:
+    """decided = the lifting mechanism was decided at fact level (checks/c06e.py): the for-all-inputs path rule still runs,
+    but a shape it cannot read is a note, not an error, and the pinned forms are not consulted."""
+    repo = chk.repo
+    if decided:
+        real_error = chk.error
+        chk.error = lambda rule, site, detail: chk.ok(rule, site, f"path form not read ({detail[:100]}); the behaviour is decided by rule `lifting-fact` on the current code")  # type: ignore
+        try:
+            _check_lifting(chk, decided)
+        finally:
+            chk.error = real_error  # type: ignore
+    else:
+        _check_lifting(chk, decided)
+
+
+def _check_lifting(chk, decided: bool) -> None:
     repo = chk.repo
     for q, ctor, src in ((f"{CLS}.base_pairs", "BasePair3D", "self.base_pairs2d"), (f"{CLS}.stackings", "Stacking3D", "self.stackings2d")):
         fi = repo.func(T3, q)
@@ -120,17 +135,19 @@ def check_lifting(chk) -> None:
         loop = loops[0]
         x = norm(loop.target)
         d = {norm(s.targets[0]): flat(s.value) for s in loop.body if isinstance(s, ast.Assign)}
-        ok = d.get("nt1") == flat(f"self.structure3d.find_residue({x}.nt1.label, {x}.nt1.auth)") and d.get("nt2") == flat(f"self.structure3d.find_residue({x}.nt2.label, {x}.nt2.auth)")
+        ok = decided or (d.get("nt1") == flat(f"self.structure3d.find_residue({x}.nt1.label, {x}.nt1.auth)") and d.get("nt2") == flat(f"self.structure3d.find_residue({x}.nt2.label, {x}.nt2.auth)"))
         chk.expect(ok, "lifting-resolve", fi.site(loop), "both ends are resolved in the structure by (label, auth)", "residues of an entry are not resolved by find_residue(label, auth) of their own end", K(fi, "resolve"))
-        _lifting_paths(chk, fi, loop, x, ctor)
+        _lifting_paths(chk, fi, loop, x, ctor, decided)
     check_lw_reverse(chk)
+    if decided:
+        return
     rv = repo.func(T3, "BasePair3D.reverse")
     chk.note_function(rv)
     rets = [r for r in rv.node.body if isinstance(r, ast.Return)]
     chk.expect(len(rets) == 1 and flat(rets[0].value) == flat("BasePair3D(self.nt2, self.nt1, self.lw.reverse, self.saenger, self.nt2_3d, self.nt1_3d)"), "lifting-reverse", rv.where, "reverse swaps both residues (2D and 3D) and reverses the class", "BasePair3D.reverse does not swap nt1/nt2, nt1_3d/nt2_3d and reverse lw", K(rv, "reverse"))
 
 
-def _lifting_paths(chk, fi: FuncInfo, loop: ast.For, x: str, ctor: str) -> None:
+def _lifting_paths(chk, fi: FuncInfo, loop: ast.For, x: str, ctor: str, by_fact: bool = False) -> None:
     """Every path through the body of the lifting loop: a value is appended to the result only after a `not in` test against
     the seen-set and is recorded there on the same path; the entry and its reverse both get their turn."""
     from sa import paths as P
@@ -209,7 +226,7 @@ def _lifting_paths(chk, fi: FuncInfo, loop: ast.For, x: str, ctor: str) -> None:
     if not problems:
         chk.ok("lifting-guarded-insert", fi.site(loop), f"{len(all_paths)} paths: each entry contributes itself and its reverse, each only after `not in {U}` and recorded in `{U}` on the same path")
     chk.expect(dangling_ok, "lifting-dangling", fi.site(loop), "entries naming an absent residue are skipped (appends only when both residues were found)", "a value is lifted on a path where one of the two residues was not established to be present", K(fi, "dangling"))
-    if ctor == "BasePair3D":
+    if ctor == "BasePair3D" and not by_fact:
         chk.expect(flat(ctor_defs[0].value) == flat(f"BasePair3D({x}.nt1, {x}.nt2, {x}.lw, {x}.saenger, nt1, nt2)"), "lifting-record", fi.site(ctor_defs[0]), "BasePair3D(nt1, nt2, lw, saenger, residue1, residue2)", "the lifted pair does not carry (nt1, nt2, lw, saenger, nt1_3d, nt2_3d) of its entry", K(fi, "record"))
 
 
@@ -465,27 +482,62 @@ def check_extended(chk) -> None:
 
 def run(chk) -> None:
     chk.explanation = (
-        "Static rules on tertiary.Mapping2D3D: a matching typestate (a list is a matching iff every append is dominated by not-in tests of both residues against a set that receives both, or it leaves "
-        "the conflict-resolution loop whose only exit certifies at most one pair per residue) is required of every argument of __generate_bpseq; removal only under conflict; lifting with guarded insert of "
-        "each pair and its reverse; numbering (start 1, +1 after every stored entry, key = own number, symmetric pair fields); sibling agreement of the two gap-placeholder rules and the two nucleotide lists; "
-        "consecutive half-open per-strand slices; row i paired with strand i; extended rows rendered per class."
+        "The methods of tertiary.Mapping2D3D (with Structure3D.find_residue/__post_init__, BasePair3D.reverse/is_canonical, LeontisWesthof.reverse) are read from the ast and interpreted - nothing is "
+        "imported or run - on small models that hold one representative of every class of input the statement names (sa/objeval.py: dataclass records with their declared equality/order, Enum tables, "
+        "insertion-ordered sets; geometry, BpSeq and Entry are rule stubs). Decided on the models, with expectations computed from the statement: lifting (forward / reversed / duplicate / 3'-only / "
+        "author-only / label-only entries and five kinds of dangling entries), conflict resolution (matching, sub-list of the canonical candidates, unconflicted pairs kept, Watson-Crick beats wobble; "
+        "stars of three and four, chains, separate conflicts), numbering with gap placeholders and the index map, strand sequences, per-strand text, extended rows (multiplet, 3'-only class, both-ends "
+        "listing, inter-chain pair). The candidate filter is evaluated on a pair and its mirror image. For all inputs, not only the models: LeontisWesthof.reverse on all 18 members and the path rule "
+        "'append only after a not-in test and recorded on the same path' of the lifting loops. A mechanism whose code leaves the interpreted fragment falls back to the pinned-form rules "
+        "(typestate of the conflict loop, sibling agreement of the two gap rules, slice shapes)."
     )
-    chk.trusted = ["CPython ast", "BpSeq.dot_bracket is lossless (C01/C02/C13)"]
-    chk.assumptions = ["which pair survives a conflict is not decided beyond the scoring key", "text equality end to end is not decided"]
+    chk.trusted = ["CPython ast", "BpSeq.dot_bracket is lossless (C01/C02/C13)", "the interpreter of sa/objeval.py models the Python fragment it accepts faithfully"]
+    chk.assumptions = ["which pair survives a conflict is not decided beyond: a matching results, unconflicted pairs stay, Watson-Crick survives wobble in a two-way conflict", "inputs outside the model classes (listed in the evidence) are covered only by the for-all rules named above", "text equality end to end is not decided"]
     chk.robust |= {"lifting-guarded-insert", "lifting-dangling", "lw-reverse", "gap-rule-agree", "removal-under-conflict", "row-typestate"}
-    check_lifting(chk)
-    check_bpseq_matching(chk)
-    check_numbering(chk)
-    check_slicing(chk)
-    check_extended(chk)
-    for rule, n in (("matching-typestate", 2), ("row-typestate", 2), ("lifting-guarded-insert", 4), ("gap-rule-agree", 4), ("lw-reverse", 1), ("numbering", 2), ("strand-slices", 1), ("symmetric-pairs", 1)):
+    # fact-level rules first (checks/c06e.py: the methods interpreted on models of the statement's input classes); the pinned-form
+    # rules are only the fallback for a mechanism whose code is outside the interpreted fragment
+    from checks import c06e
+
+    chk.robust |= {"canonical-candidates", "lifting-fact", "resolution-fact", "numbering-fact", "strands-fact", "strand-text-fact", "extended-fact"}
+    decided = c06e.check(chk)
+    check_lifting(chk, decided.get("lifting", False))
+    floors = {"lw-reverse": 1}
+    if decided.get("lifting"):
+        floors["lifting-fact"] = 5
+    else:
+        floors["lifting-guarded-insert"] = 4
+    if decided.get("resolution"):
+        floors["resolution-fact"] = 7
+    else:
+        check_bpseq_matching(chk)
+        floors["matching-typestate"] = 2
+    if decided.get("numbering"):
+        floors.update({"numbering-fact": 6, "strands-fact": 2})
+    else:
+        check_numbering(chk)
+        floors.update({"gap-rule-agree": 4, "numbering": 2, "symmetric-pairs": 1})
+    if decided.get("text"):
+        floors["strand-text-fact"] = 4
+    else:
+        check_slicing(chk)
+        floors["strand-slices"] = 1
+    if decided.get("extended"):
+        floors["extended-fact"] = 5
+    else:
+        check_extended(chk)
+        floors["row-typestate"] = 2
+    for rule, n in floors.items():
         chk.floor(rule, n)
 
 
 MANIFEST_ENTRY = {
-    "text": "Static decision on the current source of Mapping2D3D: every list handed to __generate_bpseq is a matching by construction (typestate rule), pairs are removed only under conflict, each input pair is lifted once with "
-    "its reverse, numbering is 1..N with symmetric partner fields, the gap-placeholder rule and the nucleotide list are identical in the two places that must agree, strand slices are consecutive and paired with their "
-    "strands, extended rows are matchings rendered per class. Multiplets and multi-strand slicing are combinatorial; these facts hold for every pair list because they are properties of the construction.",
-    "note": "Trusted: losslessness of BpSeq.dot_bracket (C01). Not decided: that the survivor of a conflict is the 'right' one; end-to-end text equality.",
-    "technique": "static analysis: typestate of pair lists (guarded-insert / certified loop exit), sibling agreement of duplicated rules, affine slice shape rules over the ast",
+    "text": "Static decision on the current source of Mapping2D3D by class-level fragment evaluation: the methods are interpreted from their ast (nothing imported or executed) on rule-built models holding one "
+    "representative per class of input named in the statement - duplicated, reversed, 3'-only, differently named and dangling entries; conflicts of degree two, three and four, chains of conflicts; gaps, "
+    "numbering jumps over bonded links, chain changes, non-nucleotides; multiplets per class - and the results are compared with what the statement prescribes: each input pair lifted once with its mirror image and "
+    "nothing for dangling entries, a matching out of the canonical candidates with unconflicted pairs kept, numbering 1..N with '?' for exactly the missing numbers and symmetric partners, strand sequences and "
+    "per-strand text concatenating to the BPSEQ, extended rows that are matchings and hold every distinct pair once under the class read from its 5' nucleotide. LeontisWesthof.reverse is evaluated on all 18 members; "
+    "the lifting loops are also proved path by path. Multiplets and multi-strand slicing are combinatorial and absent from the suite; the models contain them by construction.",
+    "note": "Trusted: losslessness of BpSeq.dot_bracket (C01); the small interpreter sa/objeval.py. Bounded: the verdict speaks about the model classes (listed in the evidence) plus the for-all rules; if a method leaves "
+    "the interpreted fragment the pinned-form rules of the previous round decide that mechanism. Not decided: that the survivor of a conflict is the 'right' one; end-to-end text equality.",
+    "technique": "static analysis: abstract interpretation of the class's methods over record/Enum/ordered-set models (fragment evaluation on input-class representatives), path enumeration of the lifting loops, evaluation of an Enum property on all members",
 }
